@@ -97,6 +97,11 @@ theorem columnNames_sub_allHeaders : ∀ k ∈ columnNames, k ∈ allHeaders := 
 theorem defaultHeaders_sub (bbox : Bool) : ∀ h ∈ defaultHeaders bbox, h ∈ recKeys bbox :=
   fun _ hh => (consts_reader_default_perm bbox).mem_iff.mp hh
 
+/-- the writer's default columns start with the reader's default columns without boxes: a file
+    written by default, read without the box columns, is read by its leading columns -/
+theorem consts_writer_default_extends_reader_default :
+    ∃ ex, allHeaders = defaultHeaders false ++ ex := ⟨Generated.C14.readerBoxHeaders, by decide⟩
+
 theorem defaultHeaders_ne_nil (bbox : Bool) : defaultHeaders bbox ≠ [] := by
   intro e
   have h := consts_reader_default_perm bbox
